@@ -42,6 +42,8 @@ FIELDS = {
     "myopt": [None, "v1", "v2"],
     "env": [None, {"K": "1"}, {"K": "2"}, {"K": "1", "L": "x"}],
     "stream": [None, "QueueStream", "StdoutStream"],
+    "args": [None, "--a 1", "--b '2 3'"],
+    "working_dir": [None, "/tmp", "/"],
 }
 
 
@@ -57,6 +59,10 @@ def render(model):
                   "priority = %d" % wm["priority"]]
         if wm.get("myopt") is not None:
             lines.append("myopt = %s" % wm["myopt"])
+        if wm.get("args") is not None:
+            lines.append("args = %s" % wm["args"])
+        if wm.get("working_dir") is not None:
+            lines.append("working_dir = %s" % wm["working_dir"])
         if wm.get("stream") is not None:
             lines.append("stdout_stream.class = %s" % wm["stream"])
             lines.append("stderr_stream.class = %s" % wm["stream"])
@@ -274,7 +280,9 @@ def _strategy():
             "myopt": st.sampled_from(FIELDS["myopt"]),
             "env": st.sampled_from(FIELDS["env"]),
             "stream": st.sampled_from([None, None, "QueueStream",
-                                       "StdoutStream"])})
+                                       "StdoutStream"]),
+            "args": st.sampled_from([None, None, "--a 1"]),
+            "working_dir": st.sampled_from([None, None, "/tmp"])})
     names = ['w1', 'W2', 'Web3']
 
     @st.composite
@@ -295,7 +303,7 @@ def _strategy():
                 field = draw(st.sampled_from(
                     ['numprocesses', 'numprocesses', 'numprocesses', 'cmd',
                      'graceful_timeout', 'priority', 'myopt', 'env',
-                     'stream']))
+                     'stream', 'args', 'working_dir']))
                 edits.append(['set', draw(st.sampled_from(names)), field,
                               draw(st.sampled_from(FIELDS[field]))])
             elif kind == 'add':
